@@ -53,7 +53,7 @@ class Ctx:
 
                 t = x.t
                 E.soft.append(z3.And(t <= 1000, t >= -1000))
-                E.soft.append(z3.Or(t == 0, t >= z3.RealVal("1/100"), t <= z3.RealVal("-1/100")))
+                E.soft.append(z3.Or(t == 0, t >= z3.RealVal("1/89"), t <= z3.RealVal("-1/89")))
             return x
         v = self.values.get(name, "0") if getattr(self, "missing_as_zero", False) else self.values[name]
         return float(F(v))
